@@ -182,6 +182,7 @@ def static_part(ctx, prop):
         ctx.violations.append({"match": "locks:translate", "replay": rp, "what": "the translator / generated file no longer works on the tree", "no_input": True})
         ctx.obligations.append((fname + ":generated", False))
         return {"ok": False, "dir": None, "info": None, "groups": [], "complaints": []}
+    ctx._locks_dir = d
     ok, complaints, thms, out = _compile_obligation(ctx, d, fname)
     for t in thms:
         ctx.obligations.append((fname + ":" + t, ok))
@@ -213,6 +214,39 @@ def report_static(ctx, prop, st, evidence_for):
         name = "locks-" + re.sub(r"[^A-Za-z0-9]+", "_", g["match"].split(" ")[0])[:80]
         rp = V.write_replay(ctx, name, rec)
         ctx.violations.append({"match": g["match"], "replay": rp, "what": g["what"], "no_input": ev is None})
+
+
+# ---------------------------------------------------------------- C07 side condition (called from the C07 check)
+def overwrite_atomic_obligation(ctx):
+    """Re-checked structural side condition of Conc.overwritten_exactly_one_version: on the program regenerated from the tree,
+    RegisterPipeline performs exactly ONE sync.Map Store on graph.roots and no Delete (a non-atomic overwrite would let a concurrent Send see
+    neither version), RemovePipeline / RemovePipelineAndNodes exactly one Delete.  Appends the theorems of coq/obligations/Obl_roots.v to
+    ctx.obligations; on failure appends a violation whose match is "locks:overwrite-not-atomic".  Returns True when the obligation holds."""
+    part = {}
+    ctx.coverage["parts"]["roots-operations-obligation"] = part
+    d = getattr(ctx, "_locks_dir", None)
+    if d is None:
+        d, info = _run_translator(ctx, part)
+        if d is None:
+            rp = V.write_replay(ctx, "translate", {"kind": "obligation", "engine": "locks", "theorem_or_correspondence": "Obl_roots.v", "output": info[-4000:]})
+            ctx.violations.append({"match": "locks:translate", "replay": rp, "what": "the translator / generated file no longer works on the tree", "no_input": True})
+            ctx.obligations.append(("Obl_roots.v:generated", False))
+            return False
+        ctx._locks_dir = d
+    ok, _, thms, out = _compile_obligation(ctx, d, "Obl_roots.v")
+    for t in thms:
+        ctx.obligations.append(("Obl_roots.v:" + t, ok))
+    m = re.search(r"roots_summary =\s*(.*?)\n\s*:", out, re.S)
+    summary = re.sub(r"\s+", " ", m.group(1)) if m else None
+    part.update({"obligation_file": "coq/obligations/Obl_roots.v", "theorems": thms, "holds": ok, "roots_operations": summary})
+    if not ok:
+        rp = V.write_replay(ctx, "locks-overwrite-not-atomic", {
+            "kind": "obligation", "engine": "locks", "theorem_or_correspondence": "coq/obligations/Obl_roots.v (register_pipeline_overwrite_atomic / remove_pipeline_one_delete) over the regenerated Gen_Locks.v",
+            "roots_operations": summary, "generated_terms": gen_terms(d, {"eventlogger.Broker.RegisterPipeline", "eventlogger.Broker.RemovePipeline", "eventlogger.Broker.RemovePipelineAndNodes"}),
+            "output": out[-3000:], "repro": "bin/check replay <this file>"})
+        ctx.violations.append({"match": "locks:overwrite-not-atomic", "replay": rp, "no_input": True,
+                               "what": "RegisterPipeline no longer overwrites a pipeline with a single sync.Map Store (or a removal is no longer a single Delete): roots operations = %s" % summary})
+    return ok
 
 
 # ---------------------------------------------------------------- race reports
@@ -541,6 +575,7 @@ CKIND_TEXT = {
     "KGhost": "a Send delivered to a pipeline that was certainly not registered (removed / replaced before the Send started, registered after it ended, or never registered)",
     "KTwice": "one Send delivered twice to one pipeline", "KTwoVersions": "one Send delivered to two versions of one pipeline id",
     "KWrongType": "a Send delivered to a pipeline of another event type",
+    "KNeither": "a Send got through to no version of a pipeline that was registered before the Send started and only overwritten (never removed) until it ended",
     "KNotLinearizable": "no sequential order of the concurrent calls that respects real time explains their results and the registry observed after they finished",
 }
 _CV = re.compile(r"CV =\s*\((\d+),\s*(\d+),\s*(\d+)\)")
@@ -686,6 +721,8 @@ def _conch_race(ctx, part, info):
 def check_C04(ctx):
     V.check_properties_file(ctx, "Properties_C04.v")
     st = static_part(ctx, "C04")
+    if st["dir"]:
+        overwrite_atomic_obligation(ctx)      # Conc.v models every registry call as ONE Store / Delete on graph.roots
     part = {}
     ctx.coverage["parts"]["concurrent-histories(delivery+linearizability)"] = part
     _conch_cases(ctx, part)
@@ -773,5 +810,69 @@ def _replay_dynamic(ctx, eng, rec, path):
         rc, out = V.run([binp, "-replay", one, "-watchdog", "3s"])
         print(out[-6000:])
         return 1 if rc != 0 else 0
+    info = None
+    d = getattr(ctx, "_locks_dir", None)
+    if d is None:
+        d, info = _run_translator(ctx, {})
+    if d and info is None:
+        info = json.load(open(os.path.join(d, "translate.json")))
+    case = rec.get("case") or {}
+    if eng == "stressh" or (eng == "conch" and case.get("mode") == "race"):
+        pkg = "./cmd/stressh" if eng == "stressh" else "./cmd/conch"
+        binp, out = V.go_build(ctx, pkg, race=True)
+        if not binp:
+            print(out)
+            return 1
+        rd = os.path.join(ctx.work, "replay-race")
+        os.makedirs(rd, exist_ok=True)
+        if eng == "stressh":
+            runs = run_race_scenarios(ctx, binp, [case], rd, jobs=1)
+            sc, summ, log, rc, o = runs[0]
+            print(o[-1500:])
+        else:
+            env = dict(os.environ, VERIF_SEED=str(case.get("seed", ctx.seed)), GORACE="log_path=%s halt_on_error=0" % os.path.join(rd, "race"))
+            rc, o = V.run([binp, "-mode", "race", "-cases", str(case.get("cases", 40)), "-out", rd], env=env, timeout=2400)
+            print(o[-1500:])
+            log = "".join(open(os.path.join(rd, f), errors="replace").read() for f in sorted(os.listdir(rd)) if f.startswith("race."))
+        reports = parse_race_reports(log, info, scenario=case) if info else []
+        toks = sorted(set(r["token"] for r in reports if r["library_frames"]))
+        print("race detector reports attributed to library frames on the current tree:", toks or "none")
+        want = rec.get("access_pair")
+        if want:
+            print("recorded access pair %s reproduced: %s" % (want, want in toks))
+            for r in reports:
+                if r["token"] == want:
+                    print(r["text"][:3000])
+                    break
+            return 1 if want in toks else 0
+        return 1 if toks else 0
+    if eng == "conch":
+        rc_total = 0
+        lit = rec.get("observed_case_literal")
+        cd = os.path.join(ctx.work, "replay-conch")
+        os.makedirs(cd, exist_ok=True)
+        if lit:
+            # the verdict of the model on the recorded observation (deterministic)
+            f = os.path.join(cd, "recorded.v")
+            open(f, "w").write("From Coq Require Import List NArith ZArith.\nFrom Verif Require Import Alist Broker Run_Broker Conc Run_Conc.\nImport ListNotations.\n"
+                               "Definition cases : list ccase := [\n%s\n].\nDefinition M := Eval vm_compute in mismatches cases.\nPrint M.\n" % lit)
+            rc, out = V.coqc("recorded.v", cd)
+            print("model verdict on the recorded observation:", re.sub(r"\s+", " ", out.split("M =", 1)[-1])[:600])
+            if "M = []" not in re.sub(r"\s+", " ", out).replace("M = [ ]", "M = []"):
+                rc_total = 1
+        binp, out = V.go_build(ctx, "./cmd/conch")
+        if not binp:
+            print(out)
+            return 1
+        one = os.path.join(cd, "case.json")
+        json.dump({"case": case}, open(one, "w"))
+        rd = os.path.join(cd, "rerun")
+        os.makedirs(rd, exist_ok=True)
+        rc, out = V.run([binp, "-replay", one, "-repeat", "300", "-out", rd], timeout=1200)
+        summ = json.load(open(os.path.join(rd, "cases_summary.json")))
+        mism, failures, cv = _eval_conc(ctx, summ["files"])
+        bad = sorted(set(m[3] for m in mism if m[3] != "KLinBudget"))
+        print("re-running the history 300 times on the current tree: %d runs violate (%s)" % (len(set(m[0] for m in mism if m[3] != "KLinBudget")), ", ".join(bad) or "none"))
+        return 1 if (bad or rc_total) else 0
     print("no dynamic replay for engine", eng)
     return 0
